@@ -521,6 +521,15 @@ func main() {
 		return true
 	})
 	fmt.Fprintf(&b, "def createRevertCond : String := %s\n\n", leanStr(createCond))
+	// the size test of create (boundary: a return of exactly MaxCodeSize bytes is allowed)
+	sizeTest := ""
+	ast.Inspect(vm["EVM.create"].decl.Body, func(n ast.Node) bool {
+		if as, ok := n.(*ast.AssignStmt); ok && len(as.Lhs) == 1 && src(as.Lhs[0]) == "maxCodeSizeExceeded" {
+			sizeTest = src(as)
+		}
+		return true
+	})
+	fmt.Fprintf(&b, "def createSizeTest : String := %s\n\n", leanStr(sizeTest))
 
 	// ---- read-only guard of Run
 	guard := ""
